@@ -14,7 +14,7 @@ EXPLANATION = (
     "interior mutability, their results are ignored and the note callback only prints, and (R7) the functions that only run "
     "under -A (closure of the hooks minus what a plain push reaches) have every index, slice, unwrap, explicit panic and library "
     "call with a documented panic discharged by the range engine - for the searcher this uses three-variable sum facts and the "
-    "struct invariant position <= haystack.len(), itself proven inductive and unwritable from outside; --color — the option value flows only "
+    "struct invariant position <= haystack.len(), itself proven inductive and unwritable from outside; (R9) the hunk position of an analysis note, with which its printer indexes the hunks, is the bare counter of an enumerate() over the hunks of the file patch the note is reported with; --color — the option value flows only "
     "into comparisons and the regions they guard call nothing but the colour switch. Not decided: that the "
     "failure diagnostics (closest-match printer, dijkstra hints) cannot panic on some file content; arithmetic overflow in -A-only "
     "closures that no index depends on."
